@@ -224,6 +224,11 @@ where
         }
     }
 
+    // No limb is discarded (k == 0): the carry starts from zero instead of whatever the scratch holds.
+    if steps == 0 {
+        ZNXARI::znx_zero(carry);
+    }
+
     // Continues with shifted normalization
     for j in 0..size - steps {
         ZNXARI::znx_copy(tmp, res.at(res_col, size - steps - j - 1));
